@@ -667,7 +667,21 @@ def g15_touching_holes_pair(rng):
         if lo == hi:
             continue
         tri = [(vx, vy), (x1, lo), (x1, hi), (vx, vy)]
-        tris.append([tri if rng.random() < 0.7 else list(reversed(tri))])
+        poly = [tri if rng.random() < 0.7 else list(reversed(tri))]
+        if rng.random() < 0.4 and x1 - vx >= 2:
+            # a small rectangular hole well inside the triangle, near its far side
+            hx0, hx1 = Fraction(x1) - 1, Fraction(x1) - Fraction(1, 2)
+            t0 = (hx0 - vx) / (x1 - vx)
+            yc = Fraction(round((vy + t0 * (Fraction(lo + hi) / 2 - vy)) * 8), 8)      # dyadic
+            hh = Fraction(max(1, math.floor(t0 * (hi - lo) / 4 * 8) - 1), 8)
+            def inside(q):
+                # strictly inside the triangle (vx,vy), (x1,lo), (x1,hi)
+                o1 = (x1 - vx) * (q[1] - vy) - (lo - vy) * (q[0] - vx)
+                o2 = (x1 - vx) * (q[1] - vy) - (hi - vy) * (q[0] - vx)
+                return o1 > 0 and o2 < 0 and q[0] < x1
+            if all(inside(q) for q in [(hx0, yc - hh), (hx1, yc - hh), (hx1, yc + hh), (hx0, yc + hh)]):
+                poly.append(_rect(hx0, yc - hh, hx1, yc + hh, False))
+        tris.append(poly)
     b = tris
     if rng.random() < 0.5:
         b = b + [[_rect(vx - 1, vy - 4, x1 + 1, vy - 3 - Fraction(1, 2), True)]]
@@ -768,6 +782,38 @@ def g18_nested_pair(rng):
     return (a, b) if rng.random() < 0.7 else (b, a)
 
 
+def g19_self_touching_pair(rng):
+    """an operand that touches itself in a point (valid): a hole whose left-most vertex lies on an edge of its
+    shell, or a member of a multipolygon whose left-most vertex lies on an edge of another member; the other
+    operand lies to the left of that contact, so that the sweep passes the contact after one operand ended"""
+    w, h = rng.randint(14, 22), rng.randint(8, 12)
+    vx = rng.randint(8, w - 5)
+    a_ = rng.randint(2, 4)
+    if rng.random() < 0.5:
+        # hole touching the bottom (or top) edge of its shell
+        b, c = sorted(rng.sample(range(1, h), 2))
+        top = rng.random() < 0.5
+        if top:
+            hole = [(vx, h), (vx + a_, h - c), (vx + a_, h - b), (vx, h)]
+        else:
+            hole = [(vx, 0), (vx + a_, b), (vx + a_, c), (vx, 0)]
+        a = [[_rect(0, 0, w, h, True), hole if rng.random() < 0.5 else list(reversed(hole))]]
+    else:
+        # second member standing with its left-most vertex on the top edge of a flat first member
+        tri = [(vx, 2), (vx + a_ + 2, 3), (vx + a_, 2 + rng.randint(2, 5)), (vx, 2)]
+        a = [[_rect(0, 0, w, 2, True)], [tri if rng.random() < 0.5 else list(reversed(tri))]]
+        if rng.random() < 0.5:
+            a.reverse()
+    bx1 = rng.randint(3, vx - 1)
+    kind = rng.random()
+    if kind < 0.5:
+        b = [[_rect(rng.randint(-4, 2), rng.randint(-3, 1), bx1, rng.randint(1, h + 2), True)]]
+    else:
+        b = [[[(bx1, rng.randint(-3, 3)), (rng.randint(-4, bx1 - 2), rng.randint(4, h + 3)), (rng.randint(-4, bx1 - 2), rng.randint(-4, 1)), (bx1, 0)]]]
+        b[0][0][-1] = b[0][0][0]
+    return (a, b) if rng.random() < 0.6 else (b, a)
+
+
 FAMILIES = {
     "g1": g1_pair,
     "g2": g2_pair,
@@ -785,6 +831,7 @@ FAMILIES = {
     "g16": g16_parcels_pair,
     "g17": g17_vertex_on_edge_pair,
     "g18": g18_nested_pair,
+    "g19": g19_self_touching_pair,
 }
 # families on which all arithmetic is exact by construction / usually exact / never exact
 EXACT_FAMILIES = {"g1", "g10", "g12", "g13", "g14", "g15", "g16", "g18"}
